@@ -756,6 +756,6 @@ Definition msgq_get_witness (fixed : bool) : option (msgq * list (N * list mout)
 Theorem msgq_get_leaves_writer_refuted :
   exists q res, msgq_get_witness false = Some (q, res) /\ mq_putq q = [(201, 2)]%N /\ mq_len q = 0 /\ mq_cap q = 1.
 Proof. eexists _, _. split; [vm_compute; reflexivity|repeat split]. Qed.
-Theorem msgq_get_admits_writer_on_witness :
+Theorem msgq_get_takes_writer_on_witness :
   exists q res, msgq_get_witness true = Some (q, res) /\ mq_putq q = [] /\ mq_len q = 1.
 Proof. eexists _, _. split; [vm_compute; reflexivity|repeat split]. Qed.
